@@ -11,7 +11,7 @@ with no parse errors and no error diagnostics.
 """
 import re
 
-from ..cfg import F, op_local
+from ..cfg import F, op_local, place_fields
 from ..gates import call_result_edges, guarded, unguarded_path, test_edges, compare_seeds
 from ..pairing import explore, call_event, last_fallible_call
 from ..prov import origins, operand_origins
@@ -118,7 +118,12 @@ def rules_r1(ctx):
             callee, cb = last_fallible_call(fn, path)
             key = 'exit|%s|%s|depth%+d' % (_short(k), (callee or '?').split('::')[-1], depth)
             on_false_branch = False
-            for l in fn.local_of('should_execute'):
+            se = set(fn.local_of('should_execute'))
+            for l_, dl_ in fn.defs.items():      # structurally: a copy of PreparedBindings.should_execute
+                for (_b, _k, _rv) in dl_:
+                    if _k == 'A' and _rv[0] == 'use' and _rv[1][0] in ('c', 'm') and place_fields(_rv[1][1]) and place_fields(_rv[1][1])[-1].endswith('PreparedBindings.should_execute'):
+                        se.add(l_)
+            for l in se:
                 pos, neg, _ = test_edges(fn, {l: ('bool', True)})
                 if any((path[i], path[i + 1]) in neg for i in range(len(path) - 1)):
                     on_false_branch = True
@@ -323,7 +328,20 @@ def rules_r4(ctx):
     if n_loops < 3:
         r4.bad('budget|loops-found', 'expected the FOR/WHILE/REPEAT loops in exec_stmt, found %d loop(s) around exec_block' % n_loops, loc=fn.loc(0))
     # FOR step zero
-    steps = fn.local_of('step_i')
+    # the step is the second operand of the control-variable increment (checked_add) inside the FOR loop;
+    # the source name is only a fallback
+    steps = set()
+    for comp in sccs:
+        if not any(b in blocks for b in comp):
+            continue
+        for b in comp:
+            if re.search(r'::checked_add$', fn.call_name(b) or ''):
+                a = fn.term(b)['a']
+                if len(a) == 2 and op_local(a[1]) is not None:
+                    steps.add(op_local(a[1]))
+                    steps |= _copy_sources(fn, op_local(a[1]))
+    if not steps:
+        steps = set(fn.local_of('step_i'))
 
     def pred(op, a, c, bb):
         if op not in ('Eq', 'Ne'):
